@@ -641,6 +641,28 @@ void (*carquet_verif_io_yield)(int site, int row_group, int column) = NULL;
 #define CARQUET_VERIF_IO_YIELD(site, r) ((void)0)
 #endif
 
+/* Positioned read on the reader's FILE*.  All column readers of one file share this stream, and
+ * with it the stream position, and the batch reader loads pages of different columns from several
+ * OpenMP threads at once: the seek and the read that relies on it must be one atomic step. */
+static bool file_read_at(carquet_column_reader_t* reader, int site, FILE* file, int64_t offset,
+                         void* buf, size_t size, size_t* bytes_read) {
+    bool seek_ok;
+    size_t n = 0;
+    (void)reader; (void)site;
+#ifdef _OPENMP
+    #pragma omp critical(carquet_reader_file_io)
+#endif
+    {
+        seek_ok = (fseek(file, (long)offset, SEEK_SET) == 0);
+        if (seek_ok) {
+            CARQUET_VERIF_IO_YIELD(site, reader);
+            n = fread(buf, 1, size, file);
+        }
+    }
+    *bytes_read = n;
+    return seek_ok;
+}
+
 /* ============================================================================
  * Helper: Load dictionary page (fread path)
  * ============================================================================
@@ -654,16 +676,14 @@ static carquet_status_t load_dictionary_page_fread(
     FILE* file = file_reader->file;
     const parquet_column_metadata_t* col_meta = reader->col_meta;
 
-    /* Seek to dictionary page */
-    if (fseek(file, col_meta->dictionary_page_offset, SEEK_SET) != 0) {
+    /* Seek to dictionary page and read page header */
+    uint8_t header_buf[256];
+    size_t header_read;
+    if (!file_read_at(reader, 0, file, col_meta->dictionary_page_offset,
+                      header_buf, sizeof(header_buf), &header_read)) {
         CARQUET_SET_ERROR(error, CARQUET_ERROR_FILE_SEEK, "Failed to seek to dictionary");
         return CARQUET_ERROR_FILE_SEEK;
     }
-    CARQUET_VERIF_IO_YIELD(0, reader);
-
-    /* Read page header */
-    uint8_t header_buf[256];
-    size_t header_read = fread(header_buf, 1, sizeof(header_buf), file);
     if (header_read < 8) {
         CARQUET_SET_ERROR(error, CARQUET_ERROR_FILE_READ, "Failed to read dictionary header");
         return CARQUET_ERROR_FILE_READ;
@@ -682,22 +702,21 @@ static carquet_status_t load_dictionary_page_fread(
         return CARQUET_ERROR_INVALID_PAGE;
     }
 
-    /* Seek past header and read page data */
-    if (fseek(file, col_meta->dictionary_page_offset + (long)header_size, SEEK_SET) != 0) {
-        CARQUET_SET_ERROR(error, CARQUET_ERROR_FILE_SEEK, "Failed to seek past dict header");
-        return CARQUET_ERROR_FILE_SEEK;
-    }
-    CARQUET_VERIF_IO_YIELD(1, reader);
-
-    /* Allocate and read compressed data */
+    /* Allocate, seek past header and read compressed data */
     uint8_t* compressed = malloc(page_header.compressed_page_size);
     if (!compressed) {
         CARQUET_SET_ERROR(error, CARQUET_ERROR_OUT_OF_MEMORY, "Failed to allocate compressed buffer");
         return CARQUET_ERROR_OUT_OF_MEMORY;
     }
 
-    if (fread(compressed, 1, page_header.compressed_page_size, file) !=
-        (size_t)page_header.compressed_page_size) {
+    size_t data_read;
+    if (!file_read_at(reader, 1, file, col_meta->dictionary_page_offset + (int64_t)header_size,
+                      compressed, page_header.compressed_page_size, &data_read)) {
+        free(compressed);
+        CARQUET_SET_ERROR(error, CARQUET_ERROR_FILE_SEEK, "Failed to seek past dict header");
+        return CARQUET_ERROR_FILE_SEEK;
+    }
+    if (data_read != (size_t)page_header.compressed_page_size) {
         free(compressed);
         CARQUET_SET_ERROR(error, CARQUET_ERROR_FILE_READ, "Failed to read dictionary data");
         return CARQUET_ERROR_FILE_READ;
@@ -985,17 +1004,15 @@ static carquet_status_t load_next_page_fread(
         }
     }
 
-    /* Seek to data page */
+    /* Seek to data page and read page header */
     int64_t data_offset = reader->data_start_offset;
-    if (fseek(file, data_offset + reader->current_page, SEEK_SET) != 0) {
+    uint8_t header_buf[256];
+    size_t header_read;
+    if (!file_read_at(reader, 2, file, data_offset + reader->current_page,
+                      header_buf, sizeof(header_buf), &header_read)) {
         CARQUET_SET_ERROR(error, CARQUET_ERROR_FILE_SEEK, "Failed to seek to data page");
         return CARQUET_ERROR_FILE_SEEK;
     }
-    CARQUET_VERIF_IO_YIELD(2, reader);
-
-    /* Read page header */
-    uint8_t header_buf[256];
-    size_t header_read = fread(header_buf, 1, sizeof(header_buf), file);
     if (header_read < 8) {
         CARQUET_SET_ERROR(error, CARQUET_ERROR_FILE_READ, "Failed to read page header");
         return CARQUET_ERROR_FILE_READ;
@@ -1014,22 +1031,21 @@ static carquet_status_t load_next_page_fread(
         return CARQUET_ERROR_INVALID_PAGE;
     }
 
-    /* Seek past header and read page data */
-    if (fseek(file, data_offset + reader->current_page + (long)header_size, SEEK_SET) != 0) {
-        CARQUET_SET_ERROR(error, CARQUET_ERROR_FILE_SEEK, "Failed to seek past header");
-        return CARQUET_ERROR_FILE_SEEK;
-    }
-    CARQUET_VERIF_IO_YIELD(3, reader);
-
-    /* Allocate and read compressed data */
+    /* Allocate, seek past header and read compressed data */
     uint8_t* compressed = malloc(page_header.compressed_page_size);
     if (!compressed) {
         CARQUET_SET_ERROR(error, CARQUET_ERROR_OUT_OF_MEMORY, "Failed to allocate compressed buffer");
         return CARQUET_ERROR_OUT_OF_MEMORY;
     }
 
-    if (fread(compressed, 1, page_header.compressed_page_size, file) !=
-        (size_t)page_header.compressed_page_size) {
+    size_t data_read;
+    if (!file_read_at(reader, 3, file, data_offset + reader->current_page + (int64_t)header_size,
+                      compressed, page_header.compressed_page_size, &data_read)) {
+        free(compressed);
+        CARQUET_SET_ERROR(error, CARQUET_ERROR_FILE_SEEK, "Failed to seek past header");
+        return CARQUET_ERROR_FILE_SEEK;
+    }
+    if (data_read != (size_t)page_header.compressed_page_size) {
         free(compressed);
         CARQUET_SET_ERROR(error, CARQUET_ERROR_FILE_READ, "Failed to read page data");
         return CARQUET_ERROR_FILE_READ;
